@@ -623,7 +623,7 @@ def process_send_summary(I, selfv, args, kw):
           'silent socket raises no poll event; nothing is handed to the socket of a connection found dead',
       canaries=[('no-timeout-check', lambda mod: mutate_function(mod, 'TcpConnection.__trySendBuffer', _mut_drop_timeout_call), ['trySend.timeout-evaluated-before-sending'])])
 def tcp_try_send_buffer(ctx):
-    from pyvc.loops import LoopSpec, loop_table
+    from pyvc.loops import LoopSpec, loop_table, Sel
     conn, rbuf, wbuf, st, sock = mk_conn(ctx, CONNECTED)
     mod = source.load(TMOD)
     fn, ci = mod.find('TcpConnection.__trySendBuffer')
@@ -633,7 +633,7 @@ def tcp_try_send_buffer(ctx):
     loops = {}
     if any(isinstance(n, ast.While) for n in ast.walk(fn)):
         spec = LoopSpec('C13:trySend.flush-loop', lambda I, fr, it: [], havoc=lambda I, fr: None)
-        loops = {'TcpConnection.__trySendBuffer': loop_table(mod, 'TcpConnection.__trySendBuffer', {0: spec})}
+        loops = {'TcpConnection.__trySendBuffer': loop_table(mod, 'TcpConnection.__trySendBuffer', {Sel('while', header=('__processSend',)): spec})}
     I = Interp(ctx, registry=reg, externals=EXT, loop_invariants=loops, hooks={'call:cb': cb_hook})
     try:
         I.call_funcdef(fn, mod, 'TcpConnection', conn, [], {}, None, 'TcpConnection.__trySendBuffer')
